@@ -92,12 +92,23 @@ type State struct {
 	trace   []string
 	nDecisions int
 	funcs   map[string]int
-	parseCache map[*Str]value
+	parseCache map[string]value
 	stack   []string
 	stores  map[string]*mapV
 	pstores map[*value]*mapV
 	deadline time.Time
 	decCache map[int]*Str
+	colls    map[string]*collStore
+	pagedRequests int
+}
+
+func (st *State) curFnOr(cc *ssa.CallCommon) *ssa.Function {
+	if cc != nil {
+		if f := cc.StaticCallee(); f != nil {
+			return f
+		}
+	}
+	return st.curFn
 }
 
 type frame struct {
@@ -245,7 +256,7 @@ func (st *State) global(g *ssa.Global) *value {
 	}
 	// orbiter packages: initialised once (concretely) into a table shared by all paths.
 	// Assumption recorded in the evidence: package-level state of orbiter packages is read-only after init.
-	if g.Pkg != nil && strings.HasPrefix(g.Pkg.Pkg.Path(), orb) {
+	if g.Pkg != nil && isOrbPkg(g.Pkg.Pkg.Path()) {
 		if st.base {
 			if !st.e.initDoneFor(st, g.Pkg) {
 				st.runInit(g.Pkg)
@@ -254,13 +265,24 @@ func (st *State) global(g *ssa.Global) *value {
 				}
 			}
 		} else {
-			st.e.initMu.Lock()
-			if _, done := st.e.baseGlob[g.Pkg.Var("init$guard")]; !done {
-				bs := &State{e: st.e, solver: st.solver, base: true, globals: st.e.baseGlob, covers: map[string]bool{}}
-				bs.runInit(g.Pkg)
-			}
-			p, ok := st.e.baseGlob[g]
-			st.e.initMu.Unlock()
+			var p *value
+			var ok bool
+			func() {
+				st.e.initMu.Lock()
+				defer st.e.initMu.Unlock()
+				if _, done := st.e.baseGlob[g.Pkg.Var("init$guard")]; !done {
+					bs := &State{e: st.e, solver: st.solver, base: true, globals: st.e.baseGlob, covers: map[string]bool{}}
+					func() {
+						defer func() {
+							if r := recover(); r != nil {
+								panic(fmt.Sprintf("package initialiser of %s cannot be executed: %v", g.Pkg.Pkg.Path(), r))
+							}
+						}()
+						bs.runInit(g.Pkg)
+					}()
+				}
+				p, ok = st.e.baseGlob[g]
+			}()
 			if ok {
 				return p
 			}
@@ -318,6 +340,7 @@ func (st *State) callFunction(caller *frame, fn *ssa.Function, args []value, cc 
 		// keep instantiated name too
 	}
 	if in, ok := st.e.intrinsics[name]; ok {
+		st.curFn = fn
 		return in(st, caller, args, cc)
 	}
 	if o := fn.Origin(); o != nil {
@@ -329,7 +352,7 @@ func (st *State) callFunction(caller *frame, fn *ssa.Function, args []value, cc 
 			return in(st, caller, args, cc)
 		}
 	}
-	if st.initing > 0 && (fn.Pkg == nil || !strings.HasPrefix(fn.Pkg.Pkg.Path(), orb)) {
+	if st.initing > 0 && (fn.Pkg == nil || !isOrbPkg(fn.Pkg.Pkg.Path())) {
 		return zero(fn.Signature.Results()) // init mode: foreign calls are skipped
 	}
 	if fn.Blocks == nil {
@@ -1153,3 +1176,21 @@ func (h *workHeap) Push(x any)         { *h = append(*h, x.([]bool)) }
 func (h *workHeap) Pop() any           { o := *h; n := len(o); x := o[n-1]; *h = o[:n-1]; return x }
 func (e *Engine) pushWork(p []bool)    { heap.Push((*workHeap)(&e.work), p) }
 func (e *Engine) popWork() []bool      { return heap.Pop((*workHeap)(&e.work)).([]bool) }
+
+// isOrbPkg: packages whose initialisers are executed (orbiter's own hand-written code and the harness);
+// generated API packages, test utilities and the simapp are treated like foreign modules.
+func isOrbPkg(path string) bool {
+	if !strings.HasPrefix(path, orb) {
+		return false
+	}
+	rest := strings.TrimPrefix(path, orb)
+	if rest == "" {
+		return false // the root package is wiring glue (amino, depinject, autocli registration)
+	}
+	for _, skip := range []string{"/api/", "/testutil", "/simapp", "/e2e"} {
+		if strings.HasPrefix(rest, skip) {
+			return false
+		}
+	}
+	return true
+}
